@@ -149,6 +149,16 @@ CHECKS["C09"] = dict(
     design_ref="DESIGN.md section 6, C09",
 )
 
+CHECKS["C07"] = dict(
+    category="other",
+    technique="two-point (old/new id) provenance lattice over a frozen table of source-table and output sinks in the subsetter; field-use audit of the SubsetGlyphs implementations",
+    text=("Static decision of the id-space discipline of the subsetter: every access to a source table (hmtx, glyf records, CFF/CFF2 charstrings, "
+          "charset, FDSelect) is indexed by an operand whose provenance is an old id, every id stored into the output or passed to old_id is a "
+          "new id, and each SubsetGlyphs implementation answers old_id/new_id from the right map. Equality of outlines and metrics, the "
+          "numberOfHMetrics boundary arithmetic and CFF subroutine renumbering are not decided."),
+    design_ref="DESIGN.md section 6, C07",
+)
+
 NOT_APPLICABLE = {
     "C05": "every clause is a numeric relation between table contents and output values; the structural parts (termination, borrow and panic discipline, attachment index validation) are decided under C02; no GPOS-specific clause is visible in the shape of the code",
 }
